@@ -123,3 +123,17 @@ Print Assumptions C03_build_classes.
 Print Assumptions C03_build_classes_verbose.
 Print Assumptions C03_build_parse_lang.
 Print Assumptions C03_build_parse_lang_verbose.
+
+(* NON-VACUITY (Proofs/NonVacuity.v, world W9): C03_classes applied to ["a1","b22"] with digit
+   conversion: the language of the computed expression (b\d|a)\d is the specification language,
+   with the engine's own class tables. *)
+From Grex Require Proofs.NonVacuity.
+Theorem C03_nonvacuous : exists e s,
+  NonVacuity.world_ok NonVacuity.c_W9 NonVacuity.db_W9 SCPass1 NonVacuity.ws_W9 true e s
+  /\ (forall u, L_expr lit_cs cls_engine e u <-> Spec lit_cs cls_engine NonVacuity.c_W9 NonVacuity.db_W9 NonVacuity.ws_W9 u).
+Proof.
+  pose proof NonVacuity.W9 as W. do 2 eexists. split; [exact W|]. intro u.
+  exact (proj1 (C03_classes _ _ _ _ _ (NonVacuity.w_nonempty _ _ _ _ _ _ _ W) (NonVacuity.w_oracle _ _ _ _ _ _ _ W)
+                  (NonVacuity.w_no_merge _ _ _ _ _ _ _ W) (NonVacuity.w_expr _ _ _ _ _ _ _ W)) u (or_intror NonVacuity.W9_K4)).
+Qed.
+Print Assumptions C03_nonvacuous.
